@@ -153,7 +153,8 @@ class Plan:
     rates.  Drawn by the property module from the run's PRNG."""
 
     def __init__(self, slots, faults=None, knobs=None, calls=None,
-                 interleave=False, overrun=0, conclude_obs=0):
+                 interleave=False, overrun=0, conclude_obs=0,
+                 obs_kinds=None):
         self.slots = slots            # list of (cfg, passes, style)
         self.faults = faults or {}    # name -> rate per protocol step
         self.knobs = knobs or []
@@ -161,6 +162,7 @@ class Plan:
         self.interleave = interleave
         self.overrun = overrun        # next() calls after conclusion
         self.conclude_obs = conclude_obs
+        self.obs_kinds = obs_kinds or OBS_KINDS
 
 
 def wants_more(slot):
@@ -187,7 +189,7 @@ class Driver:
         self.nfaults = 0
 
     def _obs(self, sid):
-        return ["obs", sid, self.rng.choice(OBS_KINDS)]
+        return ["obs", sid, self.rng.choice(self.plan.obs_kinds)]
 
     def next_op(self, w):
         if self.queue:
